@@ -89,6 +89,25 @@ theorem reported_energy_nested [IsOrderedRing K] {k : Type} [Fintype k] [Decidab
     (hx : (P2ᴴ * (Pᴴ * H * P) * P2) *ᵥ x = e • x) (hn : star x ⬝ᵥ x = 1) : lam ≤ e :=
   eigen_energy_ge _ lam e x (compression_nested H P P2 lam hP hP2 hH) hx hn
 
+/-- several roots: the lifted states `P x`, `P y` have the overlap of the local vectors, so orthonormal
+    local eigenvectors give orthonormal returned states -/
+theorem lifted_inner (P : Matrix n m K) (hP : Pᴴ * P = 1) (x y : m → K) :
+    star (P *ᵥ x) ⬝ᵥ (P *ᵥ y) = star x ⬝ᵥ y := by
+  rw [star_mulVec, dotProduct_mulVec, vecMul_vecMul, hP, vecMul_one]
+
+/-- … and the Hamiltonian matrix between lifted states is the effective one (state-averaged searches
+    diagonalise exactly the restriction of `H` to the span of the returned states) -/
+theorem lifted_matrix_element (H : Matrix n n K) (P : Matrix n m K) (x y : m → K) :
+    star (P *ᵥ x) ⬝ᵥ (H *ᵥ (P *ᵥ y)) = star x ⬝ᵥ ((Pᴴ * H * P) *ᵥ y) := by
+  rw [star_mulVec, dotProduct_mulVec, vecMul_vecMul, dotProduct_mulVec, vecMul_vecMul,
+    ← dotProduct_mulVec, Matrix.mul_assoc]
+
+/-- every one of the reported roots is bounded below by `λ` -/
+theorem all_roots_ge [IsOrderedRing K] {ι : Type} (H : Matrix n n K) (P : Matrix n m K) (lam : K)
+    (e : ι → K) (x : ι → m → K) (hP : Pᴴ * P = 1) (hH : (H - lam • (1 : Matrix n n K)).PosSemidef)
+    (hx : ∀ i, (Pᴴ * H * P) *ᵥ x i = e i • x i) (hn : ∀ i, star (x i) ⬝ᵥ x i = 1) : ∀ i, lam ≤ e i :=
+  fun i => (reported_energy_variational H P lam (e i) (x i) hP hH (hx i) (hn i)).1
+
 /-- spectral mapping for the shifted square: an eigenvector of `H` with eigenvalue `μ` is an
     eigenvector of `(H − ω)²` with eigenvalue `(μ − ω)²`; the minimum `0` of the targeted functional
     is attained exactly at eigenvalue `ω`, and the targeted search orders eigenpairs by `(μ − ω)²` -/
